@@ -77,8 +77,8 @@ for (_m, _K) in [(1, 1), (2, 2), (2, 3), (3, 3)]:
         _rect_cov(_m, _K, _sk)
 _rect_cov(2, 2, "vec1")
 _rect_cov(2, 2, "pyfloat")
-_rect_cov(3, 4, "vecm", tier="thorough")
-_rect_cov(4, 5, "vecm", tier="thorough")
+_rect_cov(3, 4, "vecm")
+_rect_cov(4, 5, "vecm")
 
 
 @task("C10", "Rect.is_covered.raises[m=2,K=3,slack_size=3]")
